@@ -46,7 +46,8 @@ def wellTyped (w : World) : Ty → Obj → Bool
   | .bytes, .bytes _ => true
   | .bool, .bool _ => true
   | .enum e, .enumM e' m => e == e' && decide (m < (w.members e).length)
-  | .lit vs, x => Obj.memPy x vs
+  -- a value of the literal; an enum member among the literal's values is a genuine member of its enum
+  | .lit vs, x => Obj.memPy x vs && wellTypedAny w x
   | .coll k t, .coll ck xs => ck == k.structTo && wellTypedL w t xs
   | .tupleHet ts, .coll .tuple xs => wellTypedT w ts xs
   | .map _ kt vt, .dict kvs => wellTypedKV w kt vt kvs
@@ -125,13 +126,18 @@ def Obj.isLeafB : Obj → Bool
   | .none | .bool _ | .int _ | .flt _ | .str _ | .bytes _ => true
   | _ => false
 
+/-- what `typing.Literal[...]` admits: leaf values and enum members -/
+def Obj.isLitVal : Obj → Bool
+  | .enumM _ _ => true
+  | x => x.isLeafB
+
 mutual
-/-- `Converter` (`gen = true`): everything in the model's universe, literals over leaf values.
+/-- `Converter` (`gen = true`): everything in the model's universe, literals over leaf values and enum members.
 `BaseConverter`: no `Annotated`, no TypedDict, NewType only over primitives, heterogeneous tuples only of
 primitives (DESIGN §7, "documented type support"); NamedTuples likewise only of primitives -- a class-table
 condition, `World.SupU.ntPrim`. -/
 def Ty.supU (gen : Bool) : Ty → Bool
-  | .lit vs => vs.all Obj.isLeafB
+  | .lit vs => vs.all Obj.isLitVal
   | .coll _ t => t.supU gen
   | .tupleHet ts => Ty.supUL gen ts && (gen || ts.all Ty.isPrimLeaf)
   | .map _ kt vt => kt.supU gen && vt.supU gen
@@ -260,7 +266,9 @@ inductive EncAs (w : World) (cfg : Cfg) : Ty → Obj → Obj → Prop
   /-- enums become their values -/
   | enum {e m v} : (w.members e)[m]? = some v → EncAs w cfg (.enum e) (.enumM e m) v
   /-- literals of leaf values are themselves -/
-  | lit {vs x} : EncAs w cfg (.lit vs) x x
+  | lit {vs x} : litHasEnum vs = false → EncAs w cfg (.lit vs) x x
+  /-- a literal containing enum members: by run-time class (a member becomes its value) -/
+  | litE {vs x y} : litHasEnum vs = true → EncRt w cfg x y → EncAs w cfg (.lit vs) x y
   /-- Converter: sequences become lists, sets sets (frozensets frozensets), elements by declared type -/
   | collG {k t ck xs ys} : cfg.gen = true → EncL w cfg t xs ys →
       EncAs w cfg (.coll k t) (.coll ck xs) (mkColl k.unstructTo ys)
